@@ -55,6 +55,31 @@ def pints_vector(x):
     return a
 
 
+class _FloatMeta(type):
+    def __instancecheck__(cls, x):
+        return isinstance(x, float)
+
+    def __call__(cls, x=0.0):
+        return sym_float(x)
+
+
+class FloatF(metaclass=_FloatMeta):
+    """Stands in for the builtin ``float`` inside chi modules: identity on
+    symbolic values, the builtin otherwise; isinstance checks still work."""
+
+
+class _IntMeta(type):
+    def __instancecheck__(cls, x):
+        return isinstance(x, int)
+
+    def __call__(cls, x=0):
+        return sym_int(x)
+
+
+class IntF(metaclass=_IntMeta):
+    pass
+
+
 class MathFacade(_Delegate):
     pass
 
@@ -123,8 +148,8 @@ def install(spec=None):
             binds['erf'] = _erf_any
         if name in ('chi._mechanistic_models', 'chi._predictive_models',
                     'chi._log_pdfs'):
-            binds['float'] = sym_float
-            binds['int'] = sym_int
+            binds['float'] = FloatF
+            binds['int'] = IntF
         if 'myokit' in spec and hasattr(mod, 'myokit'):
             binds['myokit'] = spec['myokit']
         for mname, d in (spec.get('extra') or {}).items():
